@@ -106,9 +106,11 @@ type LibWalk struct {
 	Loads  []string
 	Err    string // "" | class of the error | "PANIC:…"
 	ErrObj error
+	Result datamodel.Node // what a transforming walk returned
 }
 
 type WalkOpts struct {
+	Transforming bool // WalkTransforming with an identity function; the callbacks are recorded as 'm' visits
 	Matching    bool
 	NodeBudget  int64 // <0 = none
 	LinkBudget  int64
@@ -162,7 +164,22 @@ func RunWalk(b *Built, root datamodel.Node, s selector.Selector, o WalkOpts) Lib
 	}
 	var err error
 	pan := core.Guard(func() {
-		if o.Matching {
+		if o.Transforming {
+			keys := map[string]bool{}
+			for k := range b.Store.M {
+				keys[k] = true
+			}
+			out.Result, err = prog.WalkTransforming(root, s, func(p traversal.Progress, n datamodel.Node) (datamodel.Node, error) {
+				v, _ := ref.Read1(n)
+				out.Visits = append(out.Visits, Visit{p.Path.String(), 'm', v, p.Path.Segments()})
+				return n, nil
+			})
+			for k := range b.Store.M {
+				if !keys[k] {
+					delete(b.Store.M, k)
+				}
+			}
+		} else if o.Matching {
 			err = prog.WalkMatching(root, s, func(p traversal.Progress, n datamodel.Node) error {
 				v, _ := ref.Read1(n)
 				out.Visits = append(out.Visits, Visit{p.Path.String(), 'm', v, p.Path.Segments()})
